@@ -18,5 +18,5 @@ def register(m):
     m("C15", "c15-lame-sph-phi", CS, "        h_phi = r * sin(theta)", "        h_phi = r * cos(theta)", ("X3", "X2"))
     m("C15", "c15-lame-cyl", CS, "        return S.One, self.rho, S.One", "        return S.One, S.One, S.One", ("X3", "X2"))
     m("C15", "c15-convert-point-direction", CV, "    conversion = express_base_scalars(new_system, point.system)", "    conversion = express_base_scalars(point.system, new_system)", "X4")
-    m("C15", "c15-convert-vector-no-coordinate-substitution", CV, "    return new_vector.subs(new_point.coordinates, simultaneous=True)\n", "    return new_vector\n", "X4")
+    m("C15", "c15-convert-vector-no-coordinate-substitution", CV, "        old_vector: new_vectors.subs(new_point.coordinates, simultaneous=True)\n", "        old_vector: new_vectors\n", "X4")
     m("C15", "c15-fallthrough-no-raise", SC, "    if old_type is not new_type:\n        raise TypeError(\n            f\"Conversion between {old_type.__name__} and {new_type.__name__} is not supported.\")\n", "", "X5")
